@@ -120,6 +120,11 @@ func (b *Builder) Pop() {
 					}
 				}
 			}
+		} else if 1 < len(b.starts) && b.starts[len(b.starts)-2] < 0 {
+			// An object inside an object has already been added to its
+			// parent. Remove it from the stack so that the parent is the
+			// target of the next keyed call.
+			b.stack = b.stack[:len(b.stack)-1]
 		}
 		b.starts = b.starts[:len(b.starts)-1]
 	}
